@@ -22,8 +22,15 @@ fn string_ref<const L: usize, const O: usize>(t: &[u8; L], len: usize) -> Option
             if c == b'\\' {
                 if i >= len { return None; }
                 let e = t[i]; i += 1;
-                let v = match e { b'n' => b'\n', b'r' => b'\r', b't' => b'\t', b'b' => 8, b'f' => 12, other => other };
-                if e >= b'0' && e <= b'7' || e == b'\n' || e == b'\r' { return None; }   // the writer never emits these
+                if e == b'\n' || e == b'\r' {           // line continuation: produces nothing
+                    if e == b'\r' && i < len && t[i] == b'\n' { i += 1; }
+                    continue;
+                }
+                let v = if e >= b'0' && e <= b'7' {      // octal code, 1..3 digits, high-order overflow ignored
+                    let mut v = (e - b'0') as u32; let mut k = 0;
+                    while k < 2 && i < len && t[i] >= b'0' && t[i] <= b'7' { v = v * 8 + (t[i] - b'0') as u32; i += 1; k += 1; }
+                    (v & 0xff) as u8
+                } else { match e { b'n' => b'\n', b'r' => b'\r', b't' => b'\t', b'b' => 8, b'f' => 12, other => other } };
                 if n >= O { return None; } out[n] = v; n += 1;
             } else if c == b'(' { depth += 1; if n >= O { return None; } out[n] = c; n += 1; }
             else if c == b')' {
@@ -62,16 +69,16 @@ fn string_case<const N: usize, const L: usize>() {
 }
 #[kani::proof]
 #[kani::stub(std::fmt::format, nofmt)]
-fn prim_string_ser_n0() { string_case::<0, 2>() }
+fn prim_string_ser_n0() { string_case::<0, 2>() }       // L = 4N+2: room for an octal escape per byte
 #[kani::proof]
 #[kani::stub(std::fmt::format, nofmt)]
-fn prim_string_ser_n1() { string_case::<1, 4>() }
+fn prim_string_ser_n1() { string_case::<1, 6>() }
 #[kani::proof]
 #[kani::stub(std::fmt::format, nofmt)]
-fn prim_string_ser_n2() { string_case::<2, 6>() }
+fn prim_string_ser_n2() { string_case::<2, 10>() }
 #[kani::proof]
 #[kani::stub(std::fmt::format, nofmt)]
-fn prim_string_ser_n3() { string_case::<3, 8>() }
+fn prim_string_ser_n3() { string_case::<3, 14>() }
 
 fn ws(b: u8) -> bool { matches!(b, 0 | 9 | 10 | 12 | 13 | 32) }
 fn delim(b: u8) -> bool { matches!(b, b'(' | b')' | b'<' | b'>' | b'[' | b']' | b'{' | b'}' | b'/' | b'%') }
